@@ -115,7 +115,7 @@ fn nth_string(mut idx: u64, len: usize) -> String {
 }
 
 pub fn run(ctx: &mut Ctx) -> (&'static str, String, bool) {
-    let maxlen = ctx.tier.pick(5usize, 6usize);
+    let maxlen = ctx.tier.pick(5usize, 7usize);
 
     // ---- exhaustive short strings -----------------------------------------------------------
     let mut total = 0u64;
